@@ -656,17 +656,29 @@ def presummary(arr, paths, cmd, opts):
         and not any(dd['deleted'] for dd in loaded['disks'].values())
     cur_blockmax = loaded['blockmax'] if loaded else 0
     psz = [sum(os.path.getsize(f) for f in fs if os.path.exists(f)) for fs in arr.parity_files]
-    d['parity_disk_blocks'] = [s // bs for s in psz]
-    # what parity_size() reports: the split sizes recorded in the content file when it has them ('Q' records), else the disk
-    rep = []
+    # parity_valid_size (parity.c, fix 03a455c): per level, the splits in order with the size recorded in the content file ('Q'
+    # record; None for a 'P' record: parity_create then takes the file's size) and the size of the file; the sum stops at the
+    # first split whose file is shorter than its size
+    splits = []
     for l in range(arr.np):
         lv = (loaded or {}).get('levels', {}).get(l)
         sp = lv['splits'] if lv else []
-        if sp and all(x['size'] is not None for x in sp) and len(sp) == len(arr.parity_files[l]):
-            rep.append(sum(x['size'] for x in sp) // bs)
-        else:
-            rep.append(psz[l] // bs)
-    d['parity_blocks'] = rep
+        cur = []
+        for k, f in enumerate(arr.parity_files[l]):
+            rec = sp[k]['size'] if (k < len(sp) and sp[k]['size'] is not None and len(sp) == len(arr.parity_files[l])) else None
+            cur.append((rec, os.path.getsize(f) if os.path.exists(f) else 0))
+        splits.append(cur)
+    d['parity_splits'] = splits
+
+    def valid(cur):
+        tot = 0
+        for rec, disk in cur:
+            size = disk if rec is None else rec
+            if disk < size:
+                return tot + disk
+            tot += size
+        return tot
+    d['parity_blocks'] = [valid(cur) // bs for cur in splits]
     # parity.c:228-236 / 712-720: with no recorded split size ('P' record) a size that is not a multiple of the block
     # size makes parity_create / parity_open fail
     norec = not loaded or all(any(x['size'] is None for x in lv['splits']) for lv in loaded['levels'].values())
@@ -759,7 +771,7 @@ def pre_tokens(d, arr):
     for e, m, r, rm, ch, ins, cp, z in d['disks']:
         t += [str(e), str(m), str(r), str(rm), str(ch), str(ins), str(cp), b(z)]
     t += [b(d['scan_need_write']), str(d['blockmax']), str(d['used'])]
-    t += [''.join(map(b, d['parity_access'])) or '-', ''.join(map(b, d['parity_open'])) or '-', ','.join(map(str, d['parity_blocks'])) or '-', ','.join(map(str, d['parity_disk_blocks'])) or '-',
+    t += [''.join(map(b, d['parity_access'])) or '-', ''.join(map(b, d['parity_open'])) or '-', ';'.join(','.join('%s:%d' % ('-' if r is None else r, k) for r, k in cur) for cur in d['parity_splits']) or '-', str(d['_bs']),
           ''.join(map(b, d['parity_resize'])) or '-', ''.join(map(b, d['parity_modified'])) or '-']
     t += [b(d.get('prehash_fail', False)), b(d['sync_work']), b(d.get('sync_errors', False)), b(d['array_empty']),
           str(d.get('scrub_stripes', 0)), b(d.get('scrub_errors', False)), b(d.get('check_errors', False)), b(d['diff'])]
